@@ -21,10 +21,10 @@ DRIVER = os.path.join(ROOT, 'lean', '.lake', 'build', 'bin', 'driver')
 
 # which properties get a scheduled stage, and how much:  (sgen cases quick, thorough), (sdfs sets quick, thorough)
 SCHED_PROPS = {
-    'C01': ((300, 3000), (6, 60)), 'C02': ((300, 3000), (4, 40)), 'C03': ((300, 3000), (6, 60)),
-    'C04': ((300, 3000), (6, 60)), 'C08': ((300, 3000), (4, 40)), 'C13': ((300, 3000), (4, 40)),
-    'C14': ((300, 3000), (6, 60)), 'C07': ((150, 1500), (0, 20)), 'C05': ((100, 1000), (0, 10)),
-    'C06': ((300, 3000), (6, 60)), 'C12': ((100, 1000), (0, 10)),
+    'C01': ((900, 9000), (18, 150)), 'C02': ((900, 9000), (12, 90)), 'C03': ((900, 9000), (18, 150)),
+    'C04': ((900, 9000), (18, 150)), 'C08': ((900, 9000), (12, 90)), 'C13': ((900, 9000), (12, 90)),
+    'C14': ((900, 9000), (18, 150)), 'C07': ((450, 4500), (6, 45)), 'C05': ((300, 3000), (3, 30)),
+    'C06': ((900, 9000), (18, 150)), 'C12': ((300, 3000), (3, 30)),
     'C15': ((0, 0), (0, 0)),
 }
 
